@@ -160,7 +160,24 @@ def el_style(g):
     return f'<style>rect {{ fill: red; }}</style><rect x="{g.p()}" y="{g.p()}" width="{g.s()}" height="{g.s()}" style="stroke-width: 2"/>'
 
 
-LEAF = {"rect": el_rect, "rect0": el_rect0, "circle": el_circle, "ellipse": el_ellipse, "line": el_line, "polyline": el_polyline, "polygon": el_polygon, "path-abs": el_path_abs,
+def el_partial(g):
+    # SVG defaults: a missing coordinate is 0 and must stay missing
+    return (f'<ellipse cx="{g.p()}" rx="{g.s()}" ry="{g.s()}"/><ellipse cy="{g.p()}" rx="{g.s()}" ry="{g.s()}"/><circle cx="{g.p()}" r="{g.s()}"/><circle cy="{g.p()}" r="{g.s()}"/>'
+            f'<rect x="{g.p()}" width="{g.s()}" height="{g.s()}"/><rect y="{g.p()}" width="{g.s()}" height="{g.s()}"/><circle r="{g.s()}"/><ellipse rx="{g.s()}" ry="{g.s()}"/>')
+
+
+def el_openclose(g):
+    # the same elements serialised with an explicit end tag and no content
+    return (f'<rect x="{g.p()}" y="{g.p()}" width="{g.s()}" height="{g.s()}"></rect><circle cx="{g.p()}" cy="{g.p()}" r="{g.s()}"></circle>'
+            f'<path d="M {g.p()} {g.p()} L {g.p()} {g.p()}"></path><line x1="{g.p()}" y1="{g.p()}" x2="{g.p()}" y2="{g.p()}"></line>'
+            f'<defs><linearGradient id="lg2"><stop offset="{g.s(1)}"></stop></linearGradient><clipPath id="cl2"></clipPath></defs><g></g><polyline points="{g.p()} {g.p()} 1 2"></polyline>')
+
+
+def el_use_partial(g):
+    return f'<defs><rect id="u2" width="{g.s()}" height="{g.s()}"/></defs><use href="#u2" x="{g.p()}"/><use href="#u2" y="{g.p()}"/><use href="#u2"/>'
+
+
+LEAF = {"partial": el_partial, "openclose": el_openclose, "use-partial": el_use_partial, "rect": el_rect, "rect0": el_rect0, "circle": el_circle, "ellipse": el_ellipse, "line": el_line, "polyline": el_polyline, "polygon": el_polygon, "path-abs": el_path_abs,
         "path-rel": el_path_rel, "path-arc": el_path_arc, "text": el_text, "text-tspan": el_text_tspan, "use": el_use, "image": el_image, "foreignObject": el_foreign,
         "linearGradient": el_lingrad, "radialGradient": el_radgrad, "marker": el_marker, "clipPath": el_clip, "mask": el_mask, "pattern": el_pattern, "filter": el_filter, "symbol": el_symbol,
         "title": el_title, "units": el_units, "style": el_style}
@@ -174,14 +191,12 @@ def templates(tier, seed):
         tds.append(dict(fam="leaf", items=[k], root="fragment"))
         for w in WRAP:
             tds.append(dict(fam="wrapped", items=[k], wrap=[w], root="svg"))
-    rnd = random.Random(77)
+    rnd = random.Random(77 + (seed if tier == "quick" else 0))
     names = list(LEAF)
-    for i in range(200):
+    for i in range(200 if tier == "quick" else 1200):
         items = rnd.sample(names, rnd.randint(2, 4))
         wraps = [rnd.choice(list(WRAP)) for _ in range(rnd.randint(0, 2))]
         tds.append(dict(fam="mixed", items=items, wrap=wraps, root=rnd.choice(["svg", "svg", "fragment", "svg-attrs"])))
-    if tier == "quick":
-        tds = sample_quota(tds, lambda t: (t["fam"],), {"leaf": 52, "wrapped": 50, "mixed": 50}, seed)
     return tds
 
 
